@@ -177,6 +177,7 @@ ANCHORS = [  # field of Core/Roar.lean::Anchors, table, class name
     ('decorHintException', 'exc', 'BeartypeDecorHintException'), ('callHintException', 'exc', 'BeartypeCallHintException'),
     ('nonpep', 'exc', 'BeartypeDecorHintNonpepException'), ('pepUnsupported', 'exc', 'BeartypeDecorHintPepUnsupportedException'),
     ('pep484', 'exc', 'BeartypeDecorHintPep484Exception'), ('mixin', 'exc', '_BeartypeHintForwardRefExceptionMixin'),
+    ('pepRaise', 'exc', '_BeartypeCallHintPepRaiseException'), ('callFwdRefStr', 'exc', 'BeartypeCallHintPep484ForwardRefStrException'),
     ('warning', 'warn', 'BeartypeWarning')]
 
 
